@@ -1,5 +1,6 @@
 """C20 - dependency ordering respects every dependency and finds real cycles."""
 import os
+import time
 
 from vlib import driver, xhair
 from vlib.xhair import Ob
@@ -47,25 +48,132 @@ def obligations(tier):
     return obs
 
 
+def merged_configs(tier):
+    """Configurations of the merged (E2) encoding: N keys, which edge kinds are symbolic."""
+    q = [
+        dict(N=3, kinds=['hard', 'soft', 'merge', 'lc'], dangling=True, allow=False, cross_check=['after_hard_deps', 'every_item_exactly_once']),
+        dict(N=3, kinds=['hard', 'soft', 'merge', 'lc'], dangling=True, allow=True),
+        dict(N=4, kinds=['hard', 'soft'], dangling=False, allow=False, cross_check=['hard_cyclic_implies_cycle_error']),
+    ]
+    if tier == 'quick':
+        return q
+    return q + [
+        dict(N=4, kinds=['hard', 'soft', 'lc'], dangling=False, allow=False, timeout=1800),
+        dict(N=4, kinds=['hard', 'soft', 'merge'], dangling=False, allow=False, timeout=1800),
+        dict(N=4, kinds=['hard', 'soft'], dangling=True, allow=False, timeout=1800),
+        dict(N=4, kinds=['hard', 'soft'], dangling=True, allow=True, timeout=1800),
+    ]
+
+
+def _cfg_id(c):
+    return 'merged.N%d.%s%s%s' % (c['N'], '+'.join(c['kinds']), '.missing' if c['dangling'] else '',
+                                  '.allow' if c['allow'] else '')
+
+
+def _run_merged_one(c):
+    import json
+    import subprocess
+    from vlib import VENV_PY
+    t = time.time()
+    try:
+        p = subprocess.run([VENV_PY, '-m', 'vlib.merged_worker', json.dumps(c)], capture_output=True, text=True,
+                           env=xhair._env(), cwd=xhair.VERIF, timeout=c.get('timeout', 600) * 14 + 1800)
+        line = [ln for ln in p.stdout.splitlines() if ln.startswith('{')]
+        if not line:
+            return {'status': 'error', 'detail': (p.stderr or p.stdout)[-800:], 'queries': [], 'wall_s': time.time() - t}
+        out = json.loads(line[-1])
+    except subprocess.TimeoutExpired:
+        out = {'status': 'timeout', 'queries': []}
+    out['wall_s'] = round(time.time() - t, 1)
+    return out
+
+
+def run_merged(V, tier, only=''):
+    import concurrent.futures as cf
+    import json
+    import os
+    cfgs = [c for c in merged_configs(tier) if only in _cfg_id(c)]
+    if not cfgs:
+        return
+    driver.log(f'C20 {tier}: {len(cfgs)} merged-encoding configurations (engine E2)')
+    with cf.ThreadPoolExecutor(max_workers=min(len(cfgs), 8)) as ex:
+        results = list(ex.map(_run_merged_one, cfgs))
+    summary = []
+    for c, out in zip(cfgs, results):
+        cid = _cfg_id(c)
+        grp = 'E2 merged N=%d' % c['N']
+        enc = out.get('encoding', {})
+        summary.append({'config': cid, 'status': out.get('status'), 'validation': out.get('validation'), 'encoding': enc,
+                        'wall_s': out.get('wall_s')})
+        driver.log(f"  [{cid}] status={out.get('status')} frames={enc.get('frames')} defs={enc.get('definitions')} "
+                   f"bits={enc.get('input_bits')} build={enc.get('build_s')}s wall={out.get('wall_s')}s")
+        if out.get('status') != 'ok':
+            if out.get('status') in ('model_mismatch', 'vacuous', 'error'):
+                V.inconclusive.append(f"{cid}: {out.get('status')}: {str(out.get('detail') or out.get('validation'))[:300]}")
+            V.add_generic(cid, None, detail=f"{out.get('status')}: {str(out.get('detail', ''))[:200]}", group=grp)
+        for q in out.get('queries', []):
+            oid = f"{cid}.{q['name']}"
+            if q['expect'] == 'sat':
+                if q['result'] == 'sat':
+                    V.twins_ok += 1
+                continue
+            if q['result'] == 'unsat':
+                V.add_generic(oid, True, detail={k: q[k] for k in q if k in ('second_solver', 'note')} or None, group=grp,
+                              solver_s=q.get('solver_s', 0))
+            elif q['result'] == 'sat':
+                if q.get('replay_violations'):
+                    V.replayed += 0
+                    V.add_generic(oid, False, group=grp, solver_s=q.get('solver_s', 0),
+                                  violation={'engine': 'E2 merged encoding', 'config': c, 'query': q['name'],
+                                             'model_true_bits': q['model'], 'real_outcome': q['real'],
+                                             'violations': q['replay_violations'],
+                                             'call': 'edges ' + ', '.join(sorted(q['model'])) + ' -> ' + '; '.join(q['replay_violations'])[:200],
+                                             'replay_cmd': '%s -m vlib.merged_replay %r' % (
+                                                 '/verif/.venv/bin/python', json.dumps({'config': c, 'model': q['model']}))})
+                else:
+                    # the model does not reproduce on the real function: the encoding is wrong
+                    V.inconclusive.append(f"{oid}: solver model does not reproduce on the real function: {q['model']} -> {q['real']}")
+                    V.add_generic(oid, None, detail='model not reproduced', group=grp)
+            else:
+                V.add_generic(oid, None, detail=q['result'], group=grp, solver_s=q.get('solver_s', 0))
+    V.extra_merged = summary
+
+
 def run(tier, only=''):
     V = driver.Verdicts('C20', tier)
     obs = [o for o in obligations(tier) if only in o.id]
     driver.log(f'C20 {tier}: {len(obs)} CrossHair obligations')
     for ob, r in zip(obs, xhair.run_all(obs, log=driver.log)):
         V.add_xhair(ob, r)
+    run_merged(V, tier, only)
+    merged = getattr(V, 'extra_merged', [])
     return V.finish(
         level='other',
-        explanation=('Bounded symbolic execution (CrossHair/z3) of the real topological.sort_ex / sort / normalize over a symbolic '
-                     'labelling of all ordered pairs of a small key set: no exception => every key exactly once and after all of its '
-                     'hard (deps + merge) dependencies; CycleError <=> the hard dependencies are cyclic (self-loops included); soft '
-                     'edges are honoured when hard + soft is acyclic and never cause a failure; references to a missing item raise '
-                     'iff allow_unresolved is false; the result is the same on a rebuilt equal input. The input is finite-domain, '
-                     'so per-path symbolic execution amounts to an exhaustive case split with solver pruning (the merged '
-                     'bit-vector encoding planned in DESIGN.md for N = 4..5 was not built; see DESIGN.md section 4, C20).'),
-        bounds={'N=2': 'all labellings of the 4 pairs + one reference to a missing key over 5 edge kinds',
-                'N=3': 'all labellings of the 9 pairs over {none, hard, soft}' + ('' if tier == 'quick' else ' + merge') + '; all labellings of the 6 off-diagonal pairs over {none, hard, soft, loop_control}'},
-        stubs=[], trusted_base=['reachability oracle (Floyd-Warshall, 8 lines) in the harness', 'CrossHair, z3'],
-        assumptions=['keys are iterated in ascending order (dict / OrderedSet insertion order); other insertion orders are outside'],
-        outside=['N >= 4', 'loop_control edges at N = 3', 'other iteration orders', 'hash order of plain sets supplied by a caller'],
-        extra={'exhaustive_within_bound': True},
+        engine='E1: CrossHair 0.0.110 (z3) on the real Python code; E2: vlib.pysym merged predicated encoding of the '
+               'current source of sort_ex into QF_BV, z3 (simplify; solve-eqs; bit-blast; sat), cvc5 binary as second solver',
+        explanation=('Two engines over the real topological.sort_ex. E1: bounded symbolic execution (CrossHair/z3) of sort_ex / '
+                     'sort / normalize over a symbolic labelling of all ordered pairs of a small key set (per-path case split '
+                     'with solver pruning). E2: the AST of sort_ex (read with inspect.getsource from the tree under test on '
+                     'every run) is evaluated symbolically by vlib.pysym into ONE formula over one Boolean per (edge kind, '
+                     'ordered pair): statements run under path guards, containers over the concrete key universe have '
+                     'symbolic membership, exceptions are guarded completion records, recursion is unrolled with an '
+                     'unwinding assertion; each property is one solver query over all graphs of that size. Properties: '
+                     'exactly one outcome (completes / CycleError / UnresolvedReferenceError); no exception => every key '
+                     'exactly once and after all of its hard (deps + merge) dependencies; a cycle over deps/merge edges is '
+                     'always reported and a reported cycle is a real cycle over deps/merge/loop_control edges; soft edges are '
+                     'honoured when all edges together are acyclic; removing the soft edges never changes the outcome; a '
+                     'reference to a missing item raises iff allow_unresolved is false. The evaluator is validated on every '
+                     'run against CPython running the real function on concrete graphs; a solver model is replayed on the '
+                     'real function before it is reported; vacuity witnesses (both outcomes satisfiable) per configuration.'),
+        bounds={'E1 N=2': 'all labellings of the 4 pairs + one reference to a missing key over 5 edge kinds',
+                'E1 N=3': 'all labellings of the 9 pairs over {none, hard, soft}' + ('' if tier == 'quick' else ' + merge') + '; all labellings of the 6 off-diagonal pairs over {none, hard, soft, loop_control}',
+                'E2': [m['config'] + ': ' + str((m.get('encoding') or {}).get('input_bits')) + ' independent edge bits, recursion bound N+1'
+                       for m in merged]},
+        stubs=['E2: arguments of raise statements (message formatting) are not evaluated'],
+        trusted_base=['reachability oracle (Floyd-Warshall in the harness; repeated squaring in the E2 property formulas)',
+                      'CrossHair, z3', 'vlib.pysym (validated per run against CPython on concrete graphs)'],
+        assumptions=['keys are iterated in ascending order (dict / OrderedSet insertion order; sets of small ints iterate in ascending order in CPython); other insertion orders are outside'],
+        outside=['N >= 5; N = 4 with all four edge kinds at once', 'other iteration orders', 'hash order of plain sets supplied by a caller',
+                 'sort()/normalize() wrappers at N >= 3 (E1 covers them at N = 2..3)'],
+        extra={'exhaustive_within_bound': True, 'merged_encoding': merged},
     )
